@@ -179,7 +179,12 @@ F6Pow(a, e) == F6PowH(a, e, NumBits(e) - 1, F6One)
 (***************************************************************************)
 F6FrobDef(a, k)  == F6Pow(a, QPow(k))
 F12FrobDef(a, k) == F12Pow(a, QPow(k))
-Gamma(k) == F2Pow(Xi, Div(Sub(QPow(k), One), FromInt(6)))
+GammaDef(k) == F2Pow(Xi, Div(Sub(QPow(k), One), FromInt(6)))
+(* (q^k-1)/6 = (q-1)/6 + q (q^(k-1)-1)/6, hence gamma(k) = gamma(1) * gamma(k-1)^q; *)
+(* x -> x^q on Fq2 is conjugation.  MC_Fields checks Gamma = GammaDef for k <= 12. *)
+Gamma1 == GammaDef(1)
+RECURSIVE Gamma(_)
+Gamma(k) == IF k = 0 THEN F2One ELSE F2Mul(Gamma1, F2Conj(Gamma(k-1)))
 RECURSIVE F2PowSmall(_,_)
 F2PowSmall(a, n) == IF n = 0 THEN F2One ELSE F2Mul(a, F2PowSmall(a, n-1))
 LOCAL FrobCoeff(c, k, g, m) == F2Mul(F2Frob(c, k), F2PowSmall(g, m))
